@@ -552,5 +552,83 @@ theorem foldTelegrams_tx (f : Ctx → Telegram → Bool → Res)
       simp only [Res.bind] at h
       rw [ih c1 c' h, hf c c1 t l h1]
 
+/-! ## One whole poll -/
+
+theorem checkBusActivity_core (s : Station) (now : Int) (n : Nat) :
+    (checkBusActivity s now n).st = s.st ∧ (checkBusActivity s now n).p = s.p ∧
+    (checkBusActivity s now n).ring = s.ring ∧ (checkBusActivity s now n).gap = s.gap := by
+  unfold checkBusActivity
+  split <;> simp [markBusActivity]
+
+/-- A regular `poll` of a station that is neither `Offline` nor `PassiveIdle` either only notes that
+its own transmission is still running, or runs the handler of the current state (after the
+bus-activity bookkeeping, which touches only time-stamp and pending-byte count). -/
+theorem poll_cases (s : Station) (apps : Apps) (now : Int) (phyTx : Bool) (rx : Bytes) (c' : Ctx)
+    (h1 : s.st ≠ .offline) (h2 : s.st ≠ .passiveIdle) (h : s.poll apps now phyTx rx = .ok c') :
+    c' = { s := markBusActivity s now, apps := apps, rx := rx } ∨
+    dispatch { s := checkBusActivity s now rx.length, apps := apps, rx := rx } now = .ok c' := by
+  unfold Station.poll pollInner at h
+  simp only at h
+  split at h
+  · first
+      | cases h
+      | (split at h
+         · rename_i hoff; exact absurd hoff h1
+         · cases h)
+  · have hps : pollStart { s := s, apps := apps, rx := rx } = .ok { s := s, apps := apps, rx := rx } := by
+      unfold pollStart
+      cases hst : s.st <;> simp_all
+    rw [hps] at h
+    simp only [Res.bind] at h
+    split at h
+    · exact Or.inl (Res.ok.inj h).symm
+    · exact Or.inr h
+
+/-! ## Counting GAP polls over the polls of one token visit -/
+
+/-- Phases of a token visit: 0 = application traffic, 1 = about to do GAP maintenance and pass the
+token, 2 = awaiting the answer to the GAP poll, 3 = passing the token without (further) GAP
+maintenance.  `none`: the station does not hold the token for a visit (idle, supervising its pass,
+claiming, offline). -/
+def phase : FState → Option Nat
+  | .useToken .. | .awaitData .. => some 0
+  | .passToken true _ => some 1
+  | .awaitStatus _ => some 2
+  | .passToken false _ => some 3
+  | _ => none
+
+theorem phase_le3 (st : FState) (p : Nat) (h : phase st = some p) : p ≤ 3 := by
+  unfold phase at h
+  split at h <;> simp at h <;> omega
+
+/-- The telegram handed to the PHY is an SD1 frame (FDL status request / response; token telegrams
+are SD4). -/
+def isSd1 : Option Bytes → Bool
+  | some (b :: _) => b == SD1
+  | _ => false
+
+theorem isSd1_request (a ts : Nat) : isSd1 (some (statusRequestBytes a ts)) = true := by
+  simp [isSd1, statusRequestBytes, sd1Frame]
+
+theorem isSd1_token (ns ts : Nat) : isSd1 (some (tokenBytes ns ts)) = false := by
+  simp [isSd1, tokenBytes, sendToken, SD1, SD4]
+
+/-- Number of SD1 frames (status requests) the station transmits outside the application phase during
+the polls of ONE token visit: `ins` lists the successive `poll` calls; counting stops when the station
+no longer holds the token for this visit (`phase = none`) or a new visit begins (a station that is
+alone in the ring hands the token to itself: back to phase 0).  `none` = a poll panicked. -/
+def gapPolls (s : Station) (apps : Apps) : List (Int × Bool × Bytes) → Option Nat
+  | [] => some 0
+  | (now, phyTx, rx) :: rest =>
+    match phase s.st with
+    | none => some 0
+    | some ph =>
+      match s.poll apps now phyTx rx with
+      | .panic _ => none
+      | .ok c' =>
+        let k := if ph ≠ 0 ∧ isSd1 c'.tx = true then 1 else 0
+        if ph ≠ 0 ∧ phase c'.s.st = some 0 then some k
+        else (gapPolls c'.s c'.apps rest).map (· + k)
+
 end StationGap
 end PV
